@@ -14,6 +14,14 @@ RULE = ('seeded family: valid prefix (possibly ending inside a fragmented '
         'by an independent reference as deliverable or violating.  '
         'Non-trivial = reached Ready; distinct = distinct (violation class, '
         'position, prefix layout, cut count) signatures')
+RULE += (' '
+         'Further families: `busy` (keep-alive on and application handlers '
+         'that take simulated time: after the ProtocolError event only the '
+         'one Close may be written), ThreadSim `threaded_*` (the event loop '
+         'fails the connection while application threads send: one Close at '
+         'most, nothing after it), RSV1 after an earlier connection of the '
+         'object that legally received compressed frames, invalid UTF-8 '
+         'inside non-final fragments of 64-128 KiB.')
 SHRINK_LISTS = [('items',), ('items', '*', 'inner', '*'), ('trailing',),
                 ('schedule', 'points'),
                 ('cuts',)]
